@@ -64,7 +64,7 @@ func (s *bwState) reachesOverWrite(h *ssa.Function) bool {
 		for _, b := range sc.Fn.Blocks {
 			for _, in := range b.Instrs {
 				if cl, ok := in.(*ssa.Call); ok {
-					if g := cl.Call.StaticCallee(); g != nil && g != h && funcPkg(g) == funcPkg(h) && g.Blocks != nil && s.reachesOverWrite(g) {
+					if g := staticCallee(cl); g != nil && g != h && funcPkg(g) == funcPkg(h) && g.Blocks != nil && s.reachesOverWrite(g) {
 						yes = true
 					}
 				}
@@ -125,7 +125,7 @@ func (s *bwState) parts(W *ssa.Function, scopes []Scope) (own []bwCall, nested [
 		for _, b := range sc.Fn.Blocks {
 			for _, in := range b.Instrs {
 				if call, ok := in.(*ssa.Call); ok {
-					if g := call.Call.StaticCallee(); g != nil && g != W && s.isWriter(g) {
+					if g := staticCallee(call); g != nil && g != W && s.isWriter(g) {
 						nested = append(nested, bwCall{sc, call, g})
 					}
 				}
@@ -214,7 +214,7 @@ func (s *bwState) analyse(W *ssa.Function) *bwInfo {
 func (s *bwState) leafPolarity(bi *bwInfo, scopes []Scope, ow bwCall) {
 	W := bi.fn
 	// address parameters
-	if ac, ok := ow.sc.S.resolve(stripConv(argN(ow.call, 0))).(*ssa.Call); ok && ac.Call.StaticCallee() != nil && ac.Call.StaticCallee().Name() == "MkBitAddr" {
+	if ac, ok := ow.sc.S.resolve(stripConv(argN(ow.call, 0))).(*ssa.Call); ok && staticCallee(ac) != nil && staticCallee(ac).Name() == "MkBitAddr" {
 		bi.blkP = paramIndex(W, ow.sc.S.resolve(stripConv(ac.Call.Args[0])))
 		if u, ok := ow.sc.S.resolve(stripConv(ac.Call.Args[1])).(*ssa.UnOp); ok && u.Op == token.MUL {
 			if ia, ok := u.X.(*ssa.IndexAddr); ok {
@@ -388,7 +388,7 @@ func preCommitWrites(c *Ctx) ([]pcWrite, []Scope) {
 				if !ok {
 					continue
 				}
-				g := call.Call.StaticCallee()
+				g := staticCallee(call)
 				if g == nil || g == c.V.PreCommit || !s.isWriter(g) {
 					continue
 				}
@@ -407,7 +407,7 @@ func preCommitWrites(c *Ctx) ([]pcWrite, []Scope) {
 				}
 				if bi.blkP >= 0 && bi.blkP < len(call.Call.Args) {
 					if scall, ok := sc.S.resolve(call.Call.Args[bi.blkP]).(*ssa.Call); ok {
-						if cal := scall.Call.StaticCallee(); cal != nil {
+						if cal := staticCallee(scall); cal != nil {
 							w.start = cal.Name()
 						}
 					}
@@ -507,7 +507,7 @@ func (s *bwState) checkLeaf(id string, bi *bwInfo) {
 		return isP && pm.Parent() == f && isU64Slice(pm.Type())
 	}
 	okAddr := false
-	if ac, ok := callSc.S.resolve(stripConv(argN(call, 0))).(*ssa.Call); ok && ac.Call.StaticCallee() != nil && ac.Call.StaticCallee().Name() == "MkBitAddr" {
+	if ac, ok := callSc.S.resolve(stripConv(argN(call, 0))).(*ssa.Call); ok && staticCallee(ac) != nil && staticCallee(ac).Name() == "MkBitAddr" {
 		bp, isBlk := callSc.S.resolve(stripConv(ac.Call.Args[0])).(*ssa.Parameter)
 		isBlk = isBlk && bp.Parent() == f
 		elemOK := false
